@@ -298,6 +298,7 @@ func ruleR5SentinelIndex(c *Ctx) []Obligation {
 		}
 	}
 	out = append(out, r5siLastElement(c)...)
+	out = append(out, r6siIndexObligations(c)...)
 	sort.SliceStable(out, func(i, j int) bool { return out[i].Key < out[j].Key })
 	return out
 }
